@@ -6,7 +6,7 @@ import numpy as np
 import torch
 
 from . import project, algrun
-from .g3run import rand_tt, rel_err, mk_problem, check_tt, check_operands, U64
+from .g3run import rand_tt, raw_tt, rel_err, mk_problem, check_tt, check_operands, U64
 
 TOL_C14 = 20.0
 
@@ -28,7 +28,7 @@ def run_cross(st, opts):
     if cfg["guess"] in ("fresh", "reused"):
         g = rand_tt(tt, N, 2, gen, dt)
     elif cfg["guess"] == "big":
-        g = rand_tt(tt, N, 4, gen, dt)
+        g = raw_tt(tt, N, 4, gen, dt)
     if op == "dmrg_cross":
         target = rand_tt(tt, N, cfg["r"], gen, dt)
         if cfg["data"] == "rand" and cfg["seed"] % 2 == 0:
